@@ -42,8 +42,9 @@ class Subscription:
 
 
 class Site:
-    def __init__(self, module, call, ctor, subscribe_fn, nbound):
-        self.module: Module = module
+    def __init__(self, module, call, ctor, subscribe_fn, nbound, fn_module=None):
+        self.module: Module = fn_module or module     # module of the subscribe function (where the code lives)
+        self.call_module: Module = module             # module of the constructor call
         self.call = call
         self.ctor = ctor
         self.subscribe_fn = subscribe_fn
@@ -51,17 +52,24 @@ class Site:
         self.observer_param = None
         self.subscriptions: List[Subscription] = []
         self.roles = {}
+        self.ctx = {}                 # bindings of factory parameters (instances of a shared operator template)
+        self.anchor_rel = self.module.relpath
+        self.anchor_short = None
+        self.instance_of = None       # label of the template when the site is an instance
+        self.error = None             # AnalysisError text when the site could not be modelled (raised when consulted)
 
     @property
     def name(self):
+        if self.instance_of:
+            return "%s::%s" % (self.anchor_rel, self.short)
         return self.module.qualname(self.subscribe_fn)
 
     @property
     def short(self):
-        return self.module.scopes[self.subscribe_fn].qualname
+        return self.anchor_short or self.module.scopes[self.subscribe_fn].qualname
 
     def where(self):
-        return self.module.where(self.call)
+        return self.call_module.where(self.call)
 
     def handler_specs(self, which="on_next") -> List[HandlerSpec]:
         out = []
@@ -111,7 +119,142 @@ def _own_nodes(fn):
             stack.append(c)
 
 
+def _top_function(module: Module, node):
+    fn = module.enclosing_function(node)
+    top = None
+    while fn is not None:
+        if isinstance(fn, (ast.FunctionDef, ast.AsyncFunctionDef)):
+            top = fn
+        fn = module.enclosing_function(fn)
+    return top
+
+
+FUNC_HEADS = ("func", "lambda", "partial")
+
+
+def _call_index(program: Program):
+    """FunctionDef node -> [(module, call)] for every call in the repository that resolves to a module-level def."""
+    idx = {}
+    for mname in sorted(program.modules):
+        module = program.modules[mname]
+        for node in ast.walk(module.tree):
+            if not isinstance(node, ast.Call):
+                continue
+            dn = dotted_name(node.func)
+            if dn is None:
+                continue
+            fn = module.enclosing_function(node)
+            local = _lookup_def(module, fn, dn) if "." not in dn else None
+            if local is not None:
+                if module.scopes[local].parent is None:
+                    idx.setdefault(local, []).append((module, node))
+                continue
+            if "." not in dn and fn is not None:
+                sc = module.scopes.get(fn)
+                shadow = False
+                while sc is not None:
+                    if dn in sc.params or dn in sc.locals:
+                        shadow = True
+                        break
+                    sc = sc.parent
+                if shadow:
+                    continue
+            try:
+                ref = program.resolve_dotted(module, dn)
+            except Exception:
+                continue
+            if ref[0] == "def":
+                idx.setdefault(ref[2], []).append((module, node))
+    return idx
+
+
+def _bind_call(ex, module: Module, call, fmod: Module, fdef, ctx, capture):
+    """{(module name, qualname, param): term} for the parameters of fdef at this call, the arguments being evaluated
+    at factory time in the lexical scope of the call; parameters whose argument has effects stay unbound."""
+    sc = fmod.scopes[fdef]
+    a = fdef.args
+    pos = [x.arg for x in a.posonlyargs] + [x.arg for x in a.args]
+    defaults = dict(zip(pos[len(pos) - len(a.defaults):], a.defaults))
+    for x, d in zip(a.kwonlyargs, a.kw_defaults):
+        if d is not None:
+            defaults[x.arg] = d
+    encl = module.enclosing_function(call)
+    given = {}
+    for k, arg in enumerate(call.args):
+        if isinstance(arg, ast.Starred) or k >= len(pos):
+            return None
+        given[pos[k]] = (module, encl, arg)
+    for kw in call.keywords:
+        if kw.arg is None:
+            return None
+        given[kw.arg] = (module, encl, kw.value)
+    out = {}
+    for p in sc.params:
+        if p in given:
+            m_, f_, node = given[p]
+            t = ex.eval_in_scope(m_, f_, node, ctx=ctx, capture=capture)
+        elif p in defaults:
+            t = ex.eval_in_scope(fmod, None, defaults[p], ctx=ctx)
+        else:
+            t = None
+        if t is not None:
+            out[(fmod.name, sc.qualname, p)] = t
+    return out
+
+
+def _is_function_valued(t):
+    return t[0] in FUNC_HEADS or (t[0] == "attr" and t[1][0] == "obs")
+
+
+def _exported(program: Program):
+    """Function definitions that a package __init__ re-exports: the public operators.  They are analysed on their
+    own (their parameters are whatever the user passes); only internal helpers are instantiated per caller."""
+    out = set()
+    for mname, module in program.modules.items():
+        if not module.relpath.endswith("__init__.py"):
+            continue
+        for name in module.bindings:
+            try:
+                ref = program.resolve_dotted(module, name)
+            except Exception:
+                continue
+            if ref[0] == "def":
+                out.add(ref[2])
+    return out
+
+
+def _contexts(program, ex, index, fmod: Module, fdef, depth=0, seen=()):
+    """Instantiation contexts of the module-level function fdef: one per in-repository call chain that hands it
+    functions written in the repository.  [] when fdef is not used as a template (it is then analysed on its own,
+    its parameters being the configuration / the user functions)."""
+    if depth > 4 or fdef in seen or fdef in index["<exported>"]:
+        return []
+    out = []
+    for module, call in index.get(fdef, []):
+        g0 = _top_function(module, call)
+        if g0 is fdef:
+            continue
+        outer = _contexts(program, ex, index, module, g0, depth + 1, seen + (fdef,)) if g0 is not None else []
+        for octx, root in (outer or [({}, (module, g0))]):
+            capture = {}
+            b = _bind_call(ex, module, call, fmod, fdef, octx, capture)
+            if b is None:
+                continue
+            if not outer and not any(_is_function_valued(t) for t in b.values()):
+                continue
+            ctx = dict(octx)
+            for k, v in capture.items():
+                if v != ("ambiguous",) and k not in ctx:
+                    ctx[k] = v
+            ctx.update(b)
+            out.append((ctx, root))
+    return out
+
+
 def find_sites(program: Program) -> List[Site]:
+    from .executor import Executor
+    ex = Executor(program)
+    index = None
     sites = []
     for mname in sorted(program.modules):
         module = program.modules[mname]
@@ -122,31 +265,79 @@ def find_sites(program: Program) -> List[Site]:
             ctor = CONSTRUCTORS.get(callee)
             if ctor is None:
                 continue
-            farg = None
-            if ctor == "muxconn":
-                if len(node.args) >= 2:
-                    farg = node.args[1]
-            elif node.args:
-                farg = node.args[0]
-            for kw in node.keywords:
-                if kw.arg == "subscribe":
-                    farg = kw.value
-            if farg is None:
-                raise AnalysisError("%s: %s(...) without a subscribe function" % (module.where(node), callee))
-            encl = module.enclosing_function(node)
-            nbound = 0
-            if isinstance(farg, ast.Call) and _resolve_callee(program, module, farg.func) == "functools.partial":
-                nbound = len(farg.args) - 1
-                farg = farg.args[0]
-            if not isinstance(farg, ast.Name):
-                raise AnalysisError("%s: subscribe function of %s is not a simple name" % (module.where(node), callee))
-            fn = _lookup_def(module, encl, farg.id)
-            if fn is None:
-                raise AnalysisError("%s: cannot resolve subscribe function %s" % (module.where(node), farg.id))
-            site = Site(module, node, ctor, fn, nbound)
-            _model_site(program, site)
-            sites.append(site)
+            if index is None:
+                index = _call_index(program)
+                index["<exported>"] = _exported(program)
+            top = _top_function(module, node)
+            ctxs = _contexts(program, ex, index, module, top) if top is not None else []
+            if not ctxs:
+                sites.append(_make_site(program, ex, module, node, ctor, callee, {}, None))
+                continue
+            for ctx, (rmod, rfn) in ctxs:
+                sites.append(_make_site(program, ex, module, node, ctor, callee, ctx, (rmod, rfn)))
     return sites
+
+
+def _make_site(program, ex, module, node, ctor, callee, ctx, root) -> Site:
+    try:
+        farg = None
+        if ctor == "muxconn":
+            if len(node.args) >= 2:
+                farg = node.args[1]
+        elif node.args:
+            farg = node.args[0]
+        for kw in node.keywords:
+            if kw.arg == "subscribe":
+                farg = kw.value
+        if farg is None:
+            raise AnalysisError("%s: %s(...) without a subscribe function" % (module.where(node), callee))
+        encl = module.enclosing_function(node)
+        nbound = 0
+        fn = fmod = None
+        syn = farg
+        if isinstance(syn, ast.Call) and _resolve_callee(program, module, syn.func) == "functools.partial" and syn.args:
+            nbound = len(syn.args) - 1
+            syn = syn.args[0]
+        if isinstance(syn, ast.Name):
+            fn = _lookup_def(module, encl, syn.id)
+            fmod = module
+        if fn is None:
+            # the subscribe function is produced by an expression (a helper returning a closure, ...)
+            t = ex.eval_in_scope(module, encl, farg, ctx=ctx)
+            nbound = 0
+            if t is not None and t[0] == "partial":
+                nbound = len(t[2])
+                t = t[1]
+            if t is None or t[0] != "func":
+                raise AnalysisError("%s: cannot resolve the subscribe function %s of %s" % (module.where(node), ast.unparse(farg)[:60], callee))
+            fn, fmod = t[1], t[2]
+        site = Site(module, node, ctor, fn, nbound, fn_module=fmod)
+        site.ctx = ctx
+        if root is not None:
+            rmod, rfn = root
+            site.anchor_rel = rmod.relpath
+            site.instance_of = site.module.qualname(fn)
+            site.anchor_short = "%s.%s" % (rmod.scopes[rfn].qualname, site.module.scopes[fn].qualname)
+        _model_site(program, site, ex)
+        return site
+    except AnalysisError as e:
+        site = Site.__new__(Site)
+        site.module = site.call_module = module
+        site.call = node
+        site.ctor = ctor
+        site.subscribe_fn = None
+        site.nbound = 0
+        site.observer_param = None
+        site.subscriptions = []
+        site.roles = {}
+        site.ctx = ctx
+        site.anchor_rel = root[0].relpath if root is not None else module.relpath
+        encl = module.enclosing_function(node)
+        site.anchor_short = (root[0].scopes[root[1]].qualname + "." if root is not None else "") + (
+            module.scopes[encl].qualname if encl is not None else "<module>")
+        site.instance_of = None
+        site.error = str(e)
+        return site
 
 
 def _subject_roles(program, module, fn):
@@ -166,7 +357,7 @@ def _subject_roles(program, module, fn):
     return roles
 
 
-def _model_site(program: Program, site: Site):
+def _model_site(program: Program, site: Site, ex=None):
     module, fn = site.module, site.subscribe_fn
     sc = module.scopes[fn]
     params = sc.params
@@ -185,13 +376,15 @@ def _model_site(program: Program, site: Site):
                 searched.append(d)
     subs = []
     for f in searched:
-        subs += _find_subscriptions(program, site, f, nested=False)
+        subs += _find_subscriptions(program, site, f, nested=False, ex=ex)
     if not subs:
-        subs = _find_subscriptions(program, site, fn, nested=True)
+        subs = _find_subscriptions(program, site, fn, nested=True, ex=ex)
+    if not subs and ex is not None:
+        subs = _subscriptions_by_execution(program, site, ex)
     site.subscriptions = subs
 
 
-def _find_subscriptions(program, site: Site, f, nested):
+def _find_subscriptions(program, site: Site, f, nested, ex=None):
     module = site.module
     out = []
     nodes = ast.walk(f) if nested else _own_nodes(f)
@@ -221,12 +414,81 @@ def _find_subscriptions(program, site: Site, f, nested):
         if not passthrough:
             for which in ("on_next", "on_error", "on_completed"):
                 e = exprs.get(which)
-                handlers[which] = _resolve_handler(program, site, in_fn, which, e)
+                handlers[which] = _resolve_handler(program, site, in_fn, which, e, ex)
         out.append(Subscription(n, source_text, passthrough, handlers, in_fn))
     return out
 
 
-def _resolve_handler(program, site: Site, in_fn, which, e) -> HandlerRef:
+def _handler_from_term(site: Site, which, t, node) -> Optional[HandlerRef]:
+    if t is None or t == ("const", None):
+        return HandlerRef("absent")
+    if t[0] == "attr" and t[2] in ("on_next", "on_error", "on_completed"):
+        return HandlerRef("forward", target=t[1], method=t[2], node=node)
+    pargs = ()
+    if t[0] == "partial":
+        pargs = t[2]
+        t = t[1]
+    if t[0] not in ("func", "lambda"):
+        return None
+    fn, fmod = t[1], t[2]
+    sc = fmod.scopes[fn]
+    params = list(sc.params)
+    bound = {}
+    for k, a in enumerate(pargs):
+        if k < len(params):
+            bound[params[k]] = a
+    event_param = None
+    if which in ("on_next", "on_error"):
+        posargs = [a.arg for a in fn.args.posonlyargs + fn.args.args if a.arg not in bound]
+        if not posargs:
+            raise AnalysisError("%s: %s handler %s takes no event parameter" % (fmod.where(fn), which, sc.qualname))
+        event_param = posargs[0]
+    spec = HandlerSpec(fmod, fn, event_param, roles=site.roles, bound=bound, label=which, ctx=site.ctx)
+    if site.instance_of:
+        spec.instance = "%s::%s" % (site.anchor_rel, site.short.split(".")[0])
+    return HandlerRef("fn", spec=spec, node=node)
+
+
+def _subscriptions_by_execution(program, site: Site, ex) -> List[Subscription]:
+    """Subscription calls reached from the subscribe function through helpers of other modules (a shared
+    'subscribe and forward the termination' routine): found by enumerating the paths of the subscribe function."""
+    from .terms import show
+    spec = HandlerSpec(site.module, site.subscribe_fn, None, roles=site.roles, ctx=site.ctx)
+    try:
+        paths = ex.run(spec, None, {}, max_iter=1)
+    except AnalysisError:
+        return []
+    out, seen = [], set()
+    order = ["on_next", "on_error", "on_completed", "scheduler"]
+    for p in paths:
+        for e in p.trace:
+            if e.k != "call" or e.d.get("method") not in ("subscribe", "subscribe_") or id(e.node) in seen:
+                continue
+            seen.add(id(e.node))
+            exprs, pos, passthrough = {}, 0, False
+            for a in e.args:
+                if a[0] == "kw":
+                    if a[1] == "observer":
+                        passthrough = True
+                    exprs[a[1]] = a[2]
+                else:
+                    if pos == 0 and a == ("obs", "down"):
+                        passthrough = True
+                    if pos < len(order):
+                        exprs[order[pos]] = a
+                    pos += 1
+            handlers = {}
+            if not passthrough:
+                for which in ("on_next", "on_error", "on_completed"):
+                    ref = _handler_from_term(site, which, exprs.get(which), e.node)
+                    if ref is None:
+                        raise AnalysisError("%s: cannot resolve the %s handler %s of %s" % (e.where(), which, show(exprs.get(which)), site.name))
+                    handlers[which] = ref
+            out.append(Subscription(e.node, show(e.base), passthrough, handlers, e.mod.enclosing_function(e.node)))
+    return out
+
+
+def _resolve_handler(program, site: Site, in_fn, which, e, ex=None) -> HandlerRef:
     module = site.module
     if e is None or (isinstance(e, ast.Constant) and e.value is None):
         return HandlerRef("absent")
@@ -241,28 +503,38 @@ def _resolve_handler(program, site: Site, in_fn, which, e) -> HandlerRef:
             return HandlerRef("forward", target=("obs", "down"), method=node.attr, node=e)
         return HandlerRef("forward", target=("opaque", ast.unparse(tgt), ()), method=node.attr, node=e)
     fn = None
+    fmod = module
+    bound = {}
     if isinstance(node, ast.Name):
         fn = _lookup_def(module, in_fn, node.id)
     elif isinstance(node, ast.Lambda):
         fn = node
+    if fn is not None:
+        params = list(module.scopes[fn].params)
+        for k, a in enumerate(bound_args):
+            if k < len(params):
+                bound[params[k]] = ("bound", params[k])
+    elif ex is not None:
+        # the handler is the value of an expression: a factory parameter bound by the instantiation context, a
+        # conditional expression decided by it, functools.partial of one of these
+        t = ex.eval_in_scope(module, in_fn, e, ctx=site.ctx, roles=site.roles)
+        ref = _handler_from_term(site, which, t, e) if t is not None else None
+        if ref is not None:
+            return ref
     if fn is None:
         raise AnalysisError("%s: cannot resolve %s handler %s of %s" % (
             module.where(e), which, ast.unparse(e), site.name))
-    sc = module.scopes[fn]
-    params = list(sc.params)
-    bound = {}
-    for k, a in enumerate(bound_args):
-        if k < len(params):
-            bound[params[k]] = ("bound", params[k])
-    free_params = [p for p in params if p not in bound]
+    sc = fmod.scopes[fn]
     event_param = None
     if which in ("on_next", "on_error"):
         # first unbound positional parameter is the event / the error
         posargs = [a.arg for a in fn.args.posonlyargs + fn.args.args if a.arg not in bound]
         if not posargs:
-            raise AnalysisError("%s: %s handler %s takes no event parameter" % (module.where(fn), which, sc.qualname))
+            raise AnalysisError("%s: %s handler %s takes no event parameter" % (fmod.where(fn), which, sc.qualname))
         event_param = posargs[0]
-    spec = HandlerSpec(module, fn, event_param, roles=site.roles, bound=bound, label=which)
+    spec = HandlerSpec(fmod, fn, event_param, roles=site.roles, bound=bound, label=which, ctx=site.ctx)
+    if site.instance_of:
+        spec.instance = "%s::%s" % (site.anchor_rel, site.short.split(".")[0])
     return HandlerRef("fn", spec=spec, node=e)
 
 
@@ -334,52 +606,101 @@ def _enclosing_const(module: Module, fn, name):
     return None
 
 
+def _param_owner(module: Module, fn, name, own=False):
+    sc = module.scopes.get(fn)
+    if sc is None:
+        return None
+    if own and name in sc.params:
+        return sc
+    cur = sc.parent
+    while cur is not None:
+        if name in cur.params:
+            return cur
+        if name in cur.locals and name not in cur.nonlocals:
+            return None
+        cur = cur.parent
+    return None
+
+
+def _ctx_functions(spec):
+    out = []
+
+    def walk(t):
+        if not isinstance(t, tuple) or not t:
+            return
+        if t[0] in ("func", "lambda") and len(t) >= 3 and isinstance(t[2], Module):
+            if (t[2], t[1]) not in out:
+                out.append((t[2], t[1]))
+            return
+        for x in t[1:]:
+            if isinstance(x, tuple):
+                walk(x)
+    for v in spec.ctx.values():
+        walk(v)
+    return out
+
+
 def config_space(program: Program, spec: HandlerSpec, extra_fns=()) -> Dict[str, List[str]]:
     """Abstract domains of the factory parameters tested in the handler."""
-    module = spec.module
-    fns = [spec.fn]
+    fns = [(spec.module, spec.fn)] + _ctx_functions(spec) + [(spec.module, f) for f in extra_fns]
     # helpers that may be inlined
-    for n in ast.walk(spec.fn):
-        if isinstance(n, ast.Call) and isinstance(n.func, ast.Name):
-            d = _lookup_def(module, spec.fn, n.func.id)
-            if d is not None and d not in fns:
-                fns.append(d)
-    fns += [f for f in extra_fns if f not in fns]
+    k = 0
+    while k < len(fns) and k < 64:
+        module, f0 = fns[k]
+        k += 1
+        for n in ast.walk(f0):
+            if isinstance(n, ast.Call) and isinstance(n.func, ast.Name):
+                d = _lookup_def(module, f0, n.func.id)
+                if d is not None and (module, d) not in fns:
+                    fns.append((module, d))
     dom: Dict[str, set] = {}
 
-    def expand(a, inner_fn, depth=0):
-        """Atoms of a test, looking through enclosing-scope constants such as
-        ``is_joined = zip is True or combine is True``."""
-        if isinstance(a, ast.Name) and depth < 4 and not _is_factory_param(module, inner_fn, a.id):
-            v = _enclosing_const(module, inner_fn, a.id)
-            if v is not None:
-                out = []
-                for b in _atoms(v[0]):
-                    out += expand(b, v[1], depth + 1)
-                return [(x, f_, True) for x, f_, _ in out]
-        return [(a, inner_fn, False)]
+    def variable(module, inner_fn, name, own):
+        """configuration variable tested through *name*, or None (not a factory parameter, a role, or a parameter the
+        instantiation context binds to a function / constant)"""
+        if not _is_factory_param(module, inner_fn, name, own) or _is_role(spec, module, inner_fn, name):
+            return None
+        owner = _param_owner(module, inner_fn, name, own)
+        if owner is not None:
+            t = spec.ctx.get((module.name, owner.qualname, name))
+            if t is not None:
+                return t[1] if t[0] == "param" else None
+        return name
 
-    for f in fns:
-        encl_sub = module.scopes[f]
+    for module, f in fns:
+        def expand(a, inner_fn, depth=0):
+            """Atoms of a test, looking through enclosing-scope constants such as
+            ``is_joined = zip is True or combine is True``."""
+            if isinstance(a, ast.Name) and depth < 4 and not _is_factory_param(module, inner_fn, a.id):
+                v = _enclosing_const(module, inner_fn, a.id)
+                if v is not None:
+                    out = []
+                    for b in _atoms(v[0]):
+                        out += expand(b, v[1], depth + 1)
+                    return [(x, f_, True) for x, f_, _ in out]
+            return [(a, inner_fn, False)]
+
         for test in _test_nodes(f):
             atoms = []
             for a0 in _atoms(test):
                 atoms += expand(a0, module.enclosing_function(a0) or f)
-            for a, inner_fn_, own_ in atoms:
-                inner_fn = inner_fn_
+            for a, inner_fn, own_ in atoms:
                 if isinstance(a, ast.Name):
-                    if _is_factory_param(module, inner_fn, a.id, own_) and not _is_role(spec, module, inner_fn, a.id):
-                        dom.setdefault(a.id, set()).add("truth")
+                    v = variable(module, inner_fn, a.id, own_)
+                    if v is not None:
+                        dom.setdefault(v, set()).add("truth")
                 elif isinstance(a, ast.Compare) and len(a.ops) == 1:
                     l, r = a.left, a.comparators[0]
                     for x, y in ((l, r), (r, l)):
                         if isinstance(x, ast.Name) and isinstance(y, ast.Constant) and \
-                                isinstance(a.ops[0], (ast.Is, ast.IsNot, ast.Eq, ast.NotEq)) and \
-                                _is_factory_param(module, inner_fn, x.id, own_):
+                                isinstance(a.ops[0], (ast.Is, ast.IsNot, ast.Eq, ast.NotEq)):
+                            v = variable(module, inner_fn, x.id, own_)
+                            if v is None:
+                                continue
                             if y.value is True or y.value is False:
-                                dom.setdefault(x.id, set()).add("bool")
+                                dom.setdefault(v, set()).add("bool")
                             elif y.value is None:
-                                dom.setdefault(x.id, set()).add("none")
+                                dom.setdefault(v, set()).add("none")
     return domains(dom)
 
 
